@@ -205,10 +205,14 @@ class Constant(Expression):
             self.value = value
         else:
             arr = np.asarray(value)
-            if arr.dtype.kind == "f" and arr.dtype.itemsize < 8:
-                # a float16 / float32 constant would drag tree evaluation down to
-                # its precision (Python floats are weak scalars for NumPy), while
-                # compiled code computes in float64
+            if arr.dtype.kind in "biu" or (
+                arr.dtype.kind == "f" and arr.dtype.itemsize < 8
+            ):
+                # NumPy scalars / arrays are stored as float64: a float16 / float32
+                # constant would drag tree evaluation down to its precision (Python
+                # floats are weak scalars for NumPy) while compiled code computes
+                # in float64, and unsigned / narrow integers wrap around under
+                # negation, subtraction and scaling
                 arr = arr.astype(np.float64)
             self.value = arr
 
